@@ -959,4 +959,93 @@ example : Fasta.parseBytes true {} [62, 97, 10, 65, 67, 0xFF, 10, 62, 98, 10, 65
     Bag.add, Bag.find]
   decide
 
+/-! ### Phylip, partition, Clustal, Stockholm, Nexus on the raw input -/
+
+theorem phylip_parseBytes_ascii (af : Bool) (o : POpts) (bs : List Byte) (h : allAscii bs = true) :
+    Phylip.parseBytes af o bs = Phylip.parse af o bs := by
+  unfold Phylip.parseBytes; rw [Gv.Proofs.Utf8Norm.norm_of_ascii bs h]
+
+/-- **Phylip (strict and relaxed) on the raw input, the complete C03 statement for ALL byte strings** (bytes ≥ 128
+included; strict names are ten RUNES) and all options: an explicit error, an exit with a message, the end-of-stream marker
+(then what the lexer read is blank up to its first NUL), or an alignment that is well formed - rectangular in BYTES AS
+WRITTEN - and agrees with the counts of the header line as the lexer holds it; never a panic, never a hang. -/
+theorem phylip_outcome_bytes (o : POpts) (bs : List Byte) :
+    match Phylip.parseBytes false o bs with
+    | .ok (some a) =>
+      Spec.Fmt.wellFormed a.length a.rows = true ∧
+      (match Spec.Fmt.declaredPhylip (Utf8.norm bs) with
+       | some (dn, dl) => Spec.Fmt.rowsOk (normIgnore o.ignore != 0) (a.rows.length : Int) dn = true ∧ a.length = dl
+       | none => True)
+    | .ok none => Spec.Fmt.blankToNul (Utf8.norm bs) = true
+    | .error | .exit => True
+    | .panic | .hang => False :=
+  phylip_outcome_full o (Utf8.norm bs)
+
+/-- **`ParseMultiple` on the raw input terminates**, ALL byte strings and options: alignments handed on are well formed;
+no panic, no hang, no allocation band. -/
+theorem phylip_multi_outcome_bytes (o : POpts) (bs : List Byte) :
+    match Phylip.parseMultiBytes false o bs with
+    | .done als _ => ∀ a ∈ als, Spec.Fmt.wellFormed a.length a.rows = true
+    | .slow => False
+    | .stop st => st = .exit :=
+  phylip_multi_outcome o (Utf8.norm bs)
+
+/-- non-vacuity: strict mode, a name field of ten runes (nine letters and `é` = `C3 A9`: eleven bytes), residues `A\xff`
+written as four bytes, declared length 4 -/
+example : Phylip.parseBytes false { strict := true } [32, 49, 32, 52, 10, 97, 98, 99, 100, 101, 102, 103, 104, 105, 0xC3, 0xA9, 65, 0xFF, 10] =
+    .ok (some ⟨3, 4, [([97, 98, 99, 100, 101, 102, 103, 104, 105, 0xC3, 0xA9], [65, 0xEF, 0xBF, 0xBD])]⟩) := by
+  decide
+
+/-- **Partition parser on the raw input**, ALL byte strings, every declared length below 2^63 (with the `AddRange` guard) -/
+theorem partition_outcome_bytes (r : Bool) (len : Nat) (hlen : (len : Int) < 9223372036854775808) (bs : List Byte) :
+    match Partition.parseBytes ⟨r, true⟩ len bs with
+    | .ok ps => ps.length = len ∧ ps.parts.length = len ∧
+                ∀ p ∈ ps.parts, -1 ≤ p ∧ p < (ps.names.length : Int)
+    | .error => True
+    | .exit | .panic | .hang => False :=
+  partition_outcome r len hlen (Utf8.norm bs)
+
+/-- the C03 predicate on an answer of a raw-input model that makes no claim for some inputs -/
+def GoodOpt : Option (Outcome Aln) → Prop
+  | some r => Good r
+  | none => True
+
+/-- **Clustal (row-index repair) on the raw input**: the full C03 statement for ALL byte strings on which the model makes a
+claim (every input without the runes U+0131 / U+017F) and all options -/
+theorem clustal_outcome_bytes (o : POpts) (bs : List Byte) : GoodOpt (Clustal.parseBytes true o bs) := by
+  unfold Clustal.parseBytes; split
+  · trivial
+  · exact clustal_outcome_fixed o (Utf8.norm bs)
+
+/-- **Stockholm (patched) on the raw input**: likewise -/
+theorem stockholm_outcome_bytes (o : POpts) (bs : List Byte) : GoodOpt (Stockholm.parseBytes true true o bs) := by
+  unfold Stockholm.parseBytes; split
+  · trivial
+  · exact stockholm_outcome_fixed o (Utf8.norm bs)
+
+/-- **Nexus (comment and empty-row repairs) on the raw input**: likewise -/
+theorem nexus_outcome_bytes (f : Nexus.Facts) (hc : f.commentStopsAtEof = true) (he : f.rejectsEmptyRows = true)
+    (o : POpts) (bs : List Byte) : GoodOpt (Nexus.parseBytes f o bs) := by
+  unfold Nexus.parseBytes; split
+  · trivial
+  · exact nexus_outcome_fixed f hc he o (Utf8.norm bs)
+
+/-- the claim is made for every ASCII input, and there the raw-input models are the ASCII models -/
+theorem parseBytes_ascii_claim (bs : List Byte) (h : allAscii bs = true) :
+    (∀ c o, Clustal.parseBytes c o bs = some (Clustal.parse c o bs)) ∧
+    (∀ m e o, Stockholm.parseBytes m e o bs = some (Stockholm.parse m e o bs)) ∧
+    (∀ f o, Nexus.parseBytes f o bs = some (Nexus.parse f o bs)) ∧
+    (∀ f len, Partition.parseBytes f len bs = Partition.parse f len bs) := by
+  have hn := Gv.Proofs.Utf8Norm.norm_of_ascii bs h
+  have hf : Utf8.hasFoldRune bs = false := Gv.Proofs.Utf8Norm.hasFoldRune_ascii bs h
+  refine ⟨?_, ?_, ?_, ?_⟩
+  · intro c o; simp [Clustal.parseBytes, hf, hn]
+  · intro m e o; simp [Stockholm.parseBytes, hf, hn]
+  · intro f o; simp [Nexus.parseBytes, hf, hn]
+  · intro f len; simp [Partition.parseBytes, hn]
+
+/-- the claim is made beyond ASCII: `CLUSTAL W\n\na\xff A€\n` -/
+example : (Clustal.parseBytes true {} [67, 76, 85, 83, 84, 65, 76, 32, 87, 10, 10, 97, 0xFF, 32, 65, 0xE2, 0x82, 0xAC, 10]).isSome = true := by
+  decide
+
 end Gv.Props.C03
